@@ -137,30 +137,14 @@ where
                 Err(callback) => f = callback,
             }
 
-            loop {
-                // If we got here then the regional state is not initialized. Let us initialize it.
-                // We now need a value to initialize the region state with. The latest written value
-                // (for our weakly consistent definition of "latest") is stored in the global state.
-                // Note that other threads in the region may also be racing to initialize. While
-                // there is mutual exclusion built in, it remains up to us here to detect ordering
-                // issues and reinitialize if an outdated value was set.
-                let initial_value = self.global_state.latest_value.load();
-
-                let expected_generation = initial_value.generation;
-                let actual_generation = regional_state.initialize(&initial_value);
-
-                // The commit will fail if the generation of the value we set does not match
-                // the generation of the value that was initialized. We do not know which one
-                // is the correct one, so we just retry until we get a match.
-                if expected_generation == actual_generation {
-                    // We are done - the universe did not change during initialization.
-                    break;
-                }
-
-                // Retry initialization. It could be that our expected value was wrong, in which
-                // case we perform some wasted cloning but avoid violating causality.
-                self.global_state.invalidate_regions();
-            }
+            // If we got here then the regional state is not initialized. Let us initialize it
+            // from the latest written value (for our weakly consistent definition of "latest"),
+            // which is stored in the global state. Other threads in the region may be racing to
+            // initialize and writers may be racing to publish and invalidate: `initialize()`
+            // loads the latest value only after claiming the region and installs its clone only
+            // if no invalidation has hit the region in between, so whatever we find installed
+            // when we loop back is never older than a write that had already invalidated us.
+            regional_state.initialize(&self.global_state.latest_value);
         }
     }
 
@@ -451,13 +435,13 @@ where
     /// Initializes the value in this regional state (potentially accepting a value from another
     /// thread already doing the same).
     ///
-    /// Returns the generation of the value that was set. This is not necessarily the same as the
-    /// input value, if we accept initialization from another thread. It is the responsibility of
-    /// the caller to decide whether that is acceptable or not (in which case it can reset).
+    /// On return the regional state may already have been invalidated again (or our own value
+    /// may have been discarded because a writer invalidated the region while we were cloning);
+    /// the caller must loop back to reading and re-initialize if there is still nothing to read.
     // Skip mutating - would lead to infinite loop as it looks just like another thread
     // constantly resetting the value, so the conflict resolver will never finish.
     #[cfg_attr(test, mutants::skip)]
-    fn initialize(&self, value: &GenerationValue<T>) -> u64 {
+    fn initialize(&self, latest_value: &ArcSwap<GenerationValue<T>>) {
         // This is a conditional swap - we only initialize if we can swap in our "initializing"
         // value onto a clean slate. If someone else got there first, we line up behind them
         // and wait for them to finish before we do anything.
@@ -475,43 +459,43 @@ where
                         // Loop back and try to read again to see what we got.
                         continue;
                     }
-                    RegionalValue::Ready(GenerationValue { generation, .. }) => {
-                        return *generation;
-                    }
+                    RegionalValue::Ready(_) => return,
                 }
             }
 
             // Nothing is happening. We may be the first to start initializing.
             let attempt_signal = Arc::new(ManualResetEvent::new(EventState::Unset));
-            let attempt = RegionalValue::<T>::Initializing(Arc::clone(&attempt_signal));
+            let attempt = Some(Arc::new(RegionalValue::<T>::Initializing(Arc::clone(
+                &attempt_signal,
+            ))));
 
-            let previous_value = self.value.compare_and_swap(reader, Some(Arc::new(attempt)));
+            let previous_value = self.value.compare_and_swap(reader, attempt.clone());
 
             if !previous_value.is_none() {
                 // Someone raced ahead of us. Re-enter loop.
                 continue;
             }
 
-            // We must ensure that if cloning panics, we reset the state
-            // and signal any waiting threads to prevent them from waiting forever.
-            let cleanup_signal = Arc::clone(&attempt_signal);
-            let cleanup_self = self; // Create a reference for the cleanup
-            let cleanup_guard = scopeguard::guard((), move |()| {
-                // If we are still in panic mode when this guard executes, reset the
-                // initializing state to None and signal waiters so they can retry.
-                cleanup_self.value.store(None);
-                cleanup_signal.set();
+            // We must ensure that if cloning panics, we reset the state (unless a writer has
+            // already done so) and signal any waiting threads to prevent them waiting forever.
+            let cleanup_guard = scopeguard::guard((), |()| {
+                self.value.compare_and_swap(&attempt, None);
+                attempt_signal.set();
             });
 
-            let new_value = RegionalValue::Ready(value.clone());
+            // The latest value must be loaded only now, after our "initializing" marker is in
+            // place: a writer that publishes a newer value after this load will invalidate the
+            // region after the marker was installed, removing the marker, so the conditional
+            // swap below fails and our (outdated) clone is discarded. Loading it earlier would
+            // let a complete write (publish + invalidate) slip in unnoticed and leave the
+            // region serving the overwritten value until the next write.
+            let latest = latest_value.load();
+            let new_value = RegionalValue::Ready(GenerationValue::clone(&latest));
 
-            // It is possible that another thread has assigned a new global value
-            // while we are doing this, so our `value` is out of date already. We
-            // detect this in the caller by checking (after initialization) whether
-            // the value that was set is of the expected generation. If not, everything
-            // starts all over again for the current thread and it tries to re-initialize.
-
-            self.value.store(Some(Arc::new(new_value)));
+            // Only install if our marker is still there, i.e. nobody invalidated the region
+            // while we were cloning. If this fails the caller simply starts over.
+            self.value
+                .compare_and_swap(&attempt, Some(Arc::new(new_value)));
 
             // We are done initializing. Notify all waiters that they can continue.
             attempt_signal.set();
@@ -519,7 +503,7 @@ where
             // Disarm the cleanup guard since initialization succeeded.
             scopeguard::ScopeGuard::into_inner(cleanup_guard);
 
-            return value.generation;
+            return;
         }
     }
 
